@@ -81,6 +81,7 @@ where
 
 // C09 for the key stream, as a proved consequence of the contract of `crypt_in_place`: processing a ++ b in two calls
 // (k advances by a.len() in between) gives the same bytes as processing it in one call.  By induction, any chunking.
+// @props: C09 C16 -- the CTR key stream applied in two chunks equals one application
 pub proof fn lemma_ctr_chunking(key: Seq<u8>, k: int, a: Seq<u8>, a2: Seq<u8>, b: Seq<u8>, b2: Seq<u8>)
     requires ctr_xor(key, k, a, a2), ctr_xor(key, k + a.len(), b, b2)
     ensures ctr_xor(key, k, a + b, a2 + b2)
@@ -96,6 +97,7 @@ pub proof fn lemma_ctr_chunking(key: Seq<u8>, k: int, a: Seq<u8>, a2: Seq<u8>, b
 }
 // the same for the whole decrypting reader: two successive successful reads compose into one step over the concatenated
 // ciphertext (MAC input, key stream and plaintext all line up), so the result does not depend on how the reads were split
+// @props: C09 C16 -- two AES read steps compose into one
 pub proof fn lemma_read_steps_compose(key: Seq<u8>, k: int, h0: Seq<u8>, ct1: Seq<u8>, p1: Seq<u8>, ct2: Seq<u8>, p2: Seq<u8>)
     requires ctr_xor(key, k, ct1, p1), ctr_xor(key, k + ct1.len(), ct2, p2)
     ensures ctr_xor(key, k, ct1 + ct2, p1 + p2), (h0 + ct1) + ct2 == h0 + (ct1 + ct2)
